@@ -7,7 +7,7 @@ From EC Require Import Lib.Outcome Lib.U64 Lib.ListW Model.Msgs Model.Replica Mo
   Proofs.ProtocolLive Proofs.ProtocolLiveInv Proofs.ProtocolLiveExample Proofs.ProtocolLiveCatch
   Proofs.ProtocolLiveNoStop Proofs.ProtocolLiveCommitStep Proofs.ProtocolLiveCommitLock Proofs.ProtocolLiveCommit
   Proofs.ProtocolLiveTimeoutStep Proofs.ProtocolLiveTimeoutLock Proofs.ProtocolLiveTimeout
-  Proofs.ProtocolLiveTidy Proofs.ProtocolLiveLockstep.
+  Proofs.ProtocolLiveTidy Proofs.ProtocolLiveLockstep Proofs.ProtocolLiveAlign.
 Import ListNotations.
 Open Scope Z_scope.
 
@@ -393,6 +393,51 @@ Proof.
   assert (Hf : 0 <= p_first P) by apply He.
   exact (progress_from_lockstep P HP pay fetch He (U64 - 2) ltac:(lia) nbyz s V n Hr HV ltac:(lia) ltac:(lia)
            (fun m Hm => ltac:(specialize (Hs m Hm); lia)) HLS (ex_intro _ i (conj Hi Hhi))).
+Qed.
+
+(* (c) in the form that connects to the progress theorem: every reachable state reaches a
+   lockstep state within R0 synchronous rounds.  NOT PROVED.  The reduction below is proved:
+   with R0 = 4 it yields C06_progress_partial as stated. *)
+Definition C06_reaches_lockstep (R0 : nat) : Prop :=
+  forall P pay fetch (nbyz : nat), params_ok P -> env_ok P pay -> forall s, preach P s ->
+  headroom P s (2 * Z.of_nat nbyz + Z.of_nat R0 + 4) ->
+  fetch_ok_run P pay fetch s (2 * nbyz + R0 + 2) ->
+  (forall V, byz_run P V nbyz) ->
+  exists V n, 0 < V /\ lockstep P pay (sync_rounds P pay fetch R0 s) V n /\
+              headroom P (sync_rounds P pay fetch R0 s) (Z.of_nat nbyz + 2).
+
+Theorem progress_of_reaches_lockstep (R0 : nat) : C06_reaches_lockstep R0 ->
+  forall P pay fetch (nbyz : nat), params_ok P -> env_ok P pay -> forall s, preach P s ->
+  headroom P s (2 * Z.of_nat nbyz + Z.of_nat R0 + 4) ->
+  fetch_ok_run P pay fetch s (2 * nbyz + R0 + 2) ->
+  (forall V, byz_run P V nbyz) ->
+  forall k, honestb P k = true ->
+    height s k < height (sync_rounds P pay fetch (R0 + 2 * (nbyz + 1)) s) k.
+Proof.
+  intros Hc P pay fetch nbyz HP He s Hr Hh Hf Hb k Hk.
+  destruct (Hc P pay fetch nbyz HP He s Hr Hh Hf Hb) as (V & n & HV & HLS & Hh0).
+  set (s0 := sync_rounds P pay fetch R0 s) in *.
+  assert (Hr0 : preach P s0) by (apply sync_rounds_reach; exact Hr).
+  destruct (progress_from_lockstep_holds P pay fetch nbyz HP He s0 V n Hr0 Hh0 HV HLS (Hb V)) as (r & Hrr & Hall).
+  destruct (Hall k Hk) as [_ Hgt].
+  pose proof (lockstep_height P HP pay fetch s0 V n Hr0 HLS k Hk) as Hn.
+  pose proof (height_mono_rounds P HP pay fetch R0 s k Hr Hk) as Hm1. fold s0 in Hm1.
+  assert (E : sync_rounds P pay fetch (R0 + 2 * (nbyz + 1)) s =
+              sync_rounds P pay fetch (2 * (nbyz + 1) - 2 * r) (sync_rounds P pay fetch (2 * r) s0)).
+  { unfold s0. rewrite <- !(sync_rounds_add P pay fetch). f_equal. lia. }
+  rewrite E.
+  pose proof (height_mono_rounds P HP pay fetch (2 * (nbyz + 1) - 2 * r) (sync_rounds P pay fetch (2 * r) s0) k
+                (sync_rounds_reach P pay fetch _ s0 Hr0) Hk) as Hm2.
+  unfold height in *. lia.
+Qed.
+
+Corollary progress_partial_of_reaches_lockstep : C06_reaches_lockstep 4 -> C06_progress_partial.
+Proof.
+  intros Hc P pay fetch nbyz HP He s Hr Hh Hf Hb k Hk.
+  replace (2 * nbyz + 6)%nat with (4 + 2 * (nbyz + 1))%nat by lia.
+  apply (progress_of_reaches_lockstep 4 Hc P pay fetch nbyz HP He s Hr); try assumption.
+  - replace (2 * Z.of_nat nbyz + Z.of_nat 4 + 4) with (2 * Z.of_nat nbyz + 8) by lia. exact Hh.
+  - replace (2 * nbyz + 4 + 2)%nat with (2 * nbyz + 6)%nat by lia. exact Hf.
 Qed.
 
 (* a boolean test of [proposal_on_network]: exactly one proposal message on the network, and it
